@@ -27,6 +27,7 @@ def cases(tier):
         if tier == 'thorough' and fx['T'].nc >= 3:
             for a, b, c in rnd.sample([(a, b, c) for a in range(ns) for b in range(ns) for c in range(ns)], 24):
                 L.append(fsm_case('C02', fx, 'batch3_d%d_d%d_d%d' % (a, b, c), base + ['ENTRY=3', 'NREQ=3', 'EXT_KINDS=0x9e', 'DEST0=%d' % a, 'DEST1=%d' % b, 'DEST2=%d' % c], timeout=2400, witness=False))
+    mark_cover(L, ['c02.f5.imm1_d3', 'c02.f5.imm3_d2'])
     return L
 
 def run(tier, seed):
